@@ -80,6 +80,13 @@ fn configs<T: HLabel>(ctx: &mut Ctx, case: &StaticCase, built: &Built<T>, oracle
         } else {
             (0..(if external { 1 } else { 3 })).map(|_| vec![rng.below(case.abs.n)]).collect()
         };
+        // a query is a *list* of arguments (disjunction): lists of 2-3 arguments, possibly repeated
+        let mut queries = queries;
+        if t.kind != QKind::SE && case.abs.n >= 2 && focus.is_none() && rng.pct(if external { 25 } else { 60 }) {
+            let k = 2 + rng.below(2);
+            queries.push((0..k).map(|_| rng.below(case.abs.n)).collect());
+            ctx.count("queries/argument-lists");
+        }
         for args in queries {
             let base_q = Query { kind: t.kind, args: args.clone(), cert: false };
             let exp = expected(oracle, t, &base_q);
